@@ -38,6 +38,8 @@ CHECKS = {
         "level_note": "Trusted: SSA->SMT executor, encoding/json dispatch model, z3. Bounds: string capacity 2/3 (text forms 6/10), metadata <= 1/2, "
                       "collection items <= 1/2, document nesting 1/2-3; well-formedness assumptions are listed in the evidence.",
         "runs": [
+            {"harness": "HarnessStringsModel", "grid": {"fn": [0, 1, 2, 3, 4, 5, 6, 7, 8, 9]}, "params": {"cap": 4}, "reach": ["strmodel:compared"]},
+            {"harness": "HarnessStdModel", "grid": {"fn": [0, 1, 2, 3]}, "params": {"sched": 1}, "reach": ["stdmodel:compared"], "threads": True},
             # translator validation: the repository's own JSON fixtures, engine digest == native digest
             {"harness": "HarnessFixtures", "grid": {"from": [0, 8, 16, 24, 32, 40, 48, 56]}, "params": {"count": 8},
              "reach": ["fixtures:done"], "compare": "RT", "replay_reach": 1},
@@ -128,6 +130,7 @@ CHECKS = {
             {"harness": "HarnessC05Match", "grid": {"order": [0, 1]}, "params": {"sched": 1, "requesters": 2, "responses": 2},
              "reach": ["c05:settled"], "threads": True},
             {"harness": "HarnessC05LateResponse", "params": {"sched": 1, "P": 0}, "reach": ["c05:late-response-attempt-returned"], "threads": True},
+            {"harness": "HarnessC05SendFail", "params": {"sched": 1, "P": 0}, "reach": ["c05:first-attempt-returned"], "threads": True},
             {"harness": "HarnessWSReceive", "params": {"sched": 1, "garbage": 1, "frag": 1, "frames": 2, "timeouts": 1}, "reach": ["c04:ws-received-one", "c04:ws-receive-error"], "threads": True, "tier": "quick"},
             {"harness": "HarnessWSSend", "params": {"sched": 1, "sends": 2, "timeouts": 1}, "reach": ["c04:ws-send-returned"], "threads": True},
             {"harness": "HarnessWSReceive", "grid": {"garbage": [0, 1]}, "params": {"sched": 1, "frag": 2, "frames": 2, "timeouts": 1}, "reach": ["c04:ws-received-one", "c04:ws-receive-error"], "threads": True, "tier": "thorough", "timeout": 3000},
@@ -290,7 +293,8 @@ CHECKS = {
                       "ProcessCommand, receiveSession, client FinishSession and EstablishSession, a send / a server FinishSession waiting for its turn behind a stuck sender, and the TCP listener's Accept are executed with a "
                       "context that has already ended or ends while they block on a silent / non-reading peer: no path leaves the caller blocked, and "
                       "the error wraps the context's error. (c) WebSocket: " + WS_NOTE + "Send to a peer that does not read (the write is blocked on the socket) and "
-                      "Receive from a silent peer return with the context's error once the context ends and leave no helper goroutine behind.",
+                      "Receive from a silent peer return with the context's error once the context ends and leave no helper goroutine behind. (d) tcpTransport.SetEncryption arms the socket, for "
+                      "the TLS handshake (a stub), with the context's deadline, or now + 30 s without one.",
         "level_note": "Trusted: SSA->SMT executor, scheduler (timers fire when no thread can run), z3. Bounds: 3 / 5 poll iterations, queue capacity 1. "
                       "gorilla's internals below WriteJSON/ReadJSON (a model), the TLS handshake's duration and lock contention are outside the claim; "
                       "time is symbolic.",
@@ -299,6 +303,7 @@ CHECKS = {
             {"harness": "HarnessC15Poll", "params": {"op": 1, "polls": 3, "partial": 1}, "reach": ["c15:poll-returned"], "tier": "quick"},
             {"harness": "HarnessC15Poll", "grid": {"op": [0, 1]}, "params": {"polls": 5}, "reach": ["c15:poll-returned"], "tier": "thorough", "qtimeout": 300},
             {"harness": "HarnessC15Block", "grid": {"op": [0, 1, 2, 3, 4, 5, 6, 7, 8, 9, 10, 11], "ctxmode": [0, 1]}, "reach": ["c15:operation-returned"]},
+            {"harness": "HarnessC09TCPEncryption", "reach": ["c09:upgraded", "c09:handshake-failed"], "replay_reach": 0},
             {"harness": "HarnessC15WS", "grid": {"op": [0, 1], "ctxmode": [0, 1]}, "params": {"sched": 1}, "reach": ["c15:ws-operation-returned"], "threads": True},
         ],
         "bounds": {"quick": {"poll_iterations": 3}, "thorough": {"poll_iterations": 5}},
@@ -312,13 +317,13 @@ CHECKS = {
                       "twice the limit is rejected whatever read-ahead preceded it; a frame within the limit (JSON text plus its delimiter) is accepted "
                       "after any predecessor and fragmentation.",
         "level_note": "Trusted: SSA->SMT executor, z3, the decoder model (reads until a value is complete; any read length >= 1). Bounds: limit in [256, 4096], "
-                      "frame size <= 3*limit+64, <= 1 / 2 predecessors, <= 2 arbitrary fragments, <= 1 / 2 transient timeouts. An envelope is measured by its wire "
+                      "frame size <= 3*limit+64, <= 1 predecessor (2 predecessors with 3 fragments did not finish in 50 min and are not claimed), <= 2 / 3 arbitrary fragments, <= 1 / 2 transient timeouts. An envelope is measured by its wire "
                       "footprint (text + one delimiter byte).",
         "runs": [
             {"harness": "HarnessC16Budget", "grid": {"trace": [0, 1], "viaaccept": [0, 1]}, "params": {"pre": 1, "timeouts": 1, "frag": 2}, "reach": ["c16:oversized", "c16:within-limit"], "tier": "quick"},
-            {"harness": "HarnessC16Budget", "grid": {"trace": [0, 1], "viaaccept": [0, 1]}, "params": {"pre": 2, "timeouts": 2, "frag": 3}, "reach": ["c16:oversized", "c16:within-limit"], "tier": "thorough", "qtimeout": 300},
+            {"harness": "HarnessC16Budget", "grid": {"trace": [0, 1], "viaaccept": [0, 1]}, "params": {"pre": 1, "timeouts": 2, "frag": 3}, "reach": ["c16:oversized", "c16:within-limit"], "tier": "thorough", "qtimeout": 300},
         ],
-        "bounds": {"quick": {"predecessors": 1}, "thorough": {"predecessors": 2}},
+        "bounds": {"quick": {"predecessors": 1, "fragments": 2, "timeouts": 1}, "thorough": {"predecessors": 1, "fragments": 3, "timeouts": 2}},
         "out": ["json.Decoder's real buffering policy (the model allows any read length >= 1, a superset)", "limits outside [256, 4096]"],
         "assumptions": [],
     },
@@ -414,6 +419,8 @@ CHECKS = {
              "reach": ["c18:closed"], "threads": True, "tier": "quick"},
             {"harness": "HarnessC18StartStop", "grid": {"when": [0, 1], "closeerr": [0, 1]}, "params": {"sched": 1, "P": 0, "listeners": 2},
              "reach": ["c18:closed"], "threads": True, "tier": "quick"},
+            {"harness": "HarnessC18WS", "params": {"sched": 1, "msgs": 1}, "reach": ["c18:ws-session-settled"], "threads": True, "tier": "quick"},
+            {"harness": "HarnessC18WS", "grid": {"msgs": [0, 2], "P": [0, 1]}, "params": {"sched": 1}, "reach": ["c18:ws-session-settled"], "threads": True, "tier": "thorough", "skip": [{"msgs": 2, "P": 1}], "timeout": 3000},
             {"harness": "HarnessC18StartStop", "params": {"sched": 1, "P": 0, "listeners": 2, "slowlisten": 1, "when": 0},
              "reach": ["c18:closed"], "threads": True},
             {"harness": "HarnessC14Serve", "params": {"enccfg": 2, "transport": 2, "depth": 4, "schemecfg": 0, "compcfg": 0, "sendfails": 1},
@@ -441,6 +448,8 @@ CHECKS = {
                       "Busy-looping is an engine-side verdict (not observable natively); its consequences (no fresh session, deaf listener, untruthful send) are "
                       "replayed natively. Back-off sleep timing and repeated faults are outside the claim.",
         "runs": [
+            {"harness": "HarnessC19Recover", "grid": {"fault": [0, 2]}, "params": {"sched": 1, "spinok": 1, "early": 1, "inbound1": 0, "P": 1},
+             "reach": ["c19:send-after-fault-returned"], "threads": True},
             {"harness": "HarnessC19Recover", "grid": {"fault": [0, 1, 2, 3, 4, 5], "inbound1": [0, 1], "P": [0, 1]}, "params": {"sched": 1, "spinok": 1},
              "unroll": 5, "reach": ["c19:send-after-fault-returned"], "threads": True, "tier": "quick"},
             {"harness": "HarnessC19Recover", "grid": {"fault": [0, 1], "P": [0, 1]}, "params": {"sched": 1, "spinok": 1, "badid": 1},
